@@ -319,6 +319,12 @@ impl InnerFilter {
 
         let difference = measurement_vec - prediction;
         let difference_covariance = uncertainty + measurement_noise;
+        if !(difference_covariance.entry(0, 0) > 0.0) {
+            // Neither the prediction nor the measurement carries any uncertainty
+            // (e.g. the same measurement twice at one event time with a zero
+            // noise estimate). The gain would be 0/0, and there is nothing to learn.
+            return;
+        }
         let update_strength =
             self.uncertainty * measurement_transform.transpose() * difference_covariance.inverse();
         self.state = self.state + update_strength * difference;
